@@ -221,6 +221,58 @@ class Ctx(object):
         per = (n + shards - 1) // shards
         self.parallel("__hyp__", [(name, per, salt * 1000 + k + 1) for k in range(shards)])
 
+    def fuzz(self, target, runs, max_len=96, timeout_s=900):
+        """Coverage-guided campaign (atheris) for this property, oracle inside the target (vf/fuzz.py). A failing
+        input is re-executed through the property's regular part function, which raises the Violation."""
+        import re
+        import subprocess
+        import tempfile
+
+        try:
+            deps = os.path.join(ROOT, ".deps")
+            if os.path.isdir(deps) and deps not in sys.path:
+                sys.path.insert(0, deps)
+            import atheris  # noqa: F401
+        except ImportError:
+            self.note("atheris is not installed: the coverage-guided campaign was skipped")
+            self.inconclusive.append("fuzz:%s skipped (atheris missing)" % target)
+            return
+        out = tempfile.NamedTemporaryFile(prefix="fuzz-%s-" % target, suffix=".json", dir=os.path.join(ROOT, ".work")
+                                          if os.path.isdir(os.path.join(ROOT, ".work")) else None, delete=False).name
+        os.unlink(out)
+        corpus = tempfile.mkdtemp(prefix="corpus-%s-" % target)
+        env = dict(os.environ, PYTHONPATH=os.pathsep.join([ROOT, os.path.join(ROOT, ".deps")]))
+        cmd = [sys.executable, "-m", "vf.fuzz", target, out, corpus, "-runs=%d" % runs, "-seed=%d" % (self.seed or 1),
+               "-max_len=%d" % max_len, "-print_final_stats=1", "-artifact_prefix=%s/" % corpus]
+        try:
+            p = subprocess.run(cmd, cwd=ROOT, env=env, stdout=subprocess.PIPE, stderr=subprocess.STDOUT, text=True,
+                               timeout=timeout_s)
+            log = p.stdout
+        except subprocess.TimeoutExpired as e:
+            log = (e.stdout or "") if isinstance(e.stdout, str) else ""
+            self.inconclusive.append("fuzz:%s stopped by the time budget" % target)
+        finally:
+            import shutil
+
+            shutil.rmtree(corpus, ignore_errors=True)
+        m = re.search(r"stat::number_of_executed_units:\s*(\d+)", log) or re.search(r"Done (\d+) runs", log)
+        execs = int(m.group(1)) if m else 0
+        part = "fuzz-" + target
+        pp = self.parts.setdefault(part, {"evaluations": 0, "nontrivial": 0})
+        pp["evaluations"] += execs
+        self.evaluations += execs
+        cov = re.findall(r"cov: (\d+)", log)
+        self.note("atheris campaign %s: %d executions, final coverage counter %s" % (target, execs, cov[-1] if cov else "?"))
+        if os.path.exists(out):
+            with open(out) as f:
+                rec = json.load(f)
+            os.unlink(out)
+            mod = load_module(self.prop)
+            mod.PARTS[rec["part"]](self, rec["case"])  # raises the Violation
+            raise HarnessError("the fuzzer's failing input did not reproduce: %r" % (rec,))
+        if execs == 0:
+            raise HarnessError("atheris campaign produced no executions:\n" + log[-1500:])
+
     def enum(self, cases, body):
         for c in cases:
             body(c)
